@@ -57,3 +57,92 @@ UNITS = {
 
 def units(lang):
     return [("lang:" + n, s.encode(), {"ctx": "lang"}) for n, s in UNITS.get(lang, [])]
+
+
+# Units written so that uncrustify consults the spacing options no other universe reaches (each construct names the options it
+# is there for).  `python3 -m mc.universe.langunits` prints the sp_ options that still are not read by any unit.
+SP_UNITS = {
+    "CPP": [
+        # sp_cpp_lambda_square_brace, sp_cpp_lambda_argument_list_empty, sp_cpp_lambda_fparen, sp_return_brace, sp_type_brace_init_lst
+        ("sp-lambda", "auto l1 = [] {};\nauto l2 = []() {};\nauto l3 = [](int a) { return a; };\nint l4 = [](int a) { return a; } (3);\n"
+                      "std::pair<int, int> rb()\n{\n    return { 1, 2 };\n}\nauto v1 = std::vector<int>{ 1, 2 };\nint v2 = int{ 3 };\nT v3 = T{};\n"),
+        # sp_before_operator_ptr_star, sp_before_scope_ptr_star, sp_before_global_scope_ptr_star, sp_qualifier_unnamed_ptr_star,
+        # sp_between_ptr_ref, sp_after_ptr_star_func, sp_before_ptr_star_func, sp_qualifier_ptr_star_func, *_trailing, sp_after_operator_sym_empty
+        ("sp-ptrstar", "struct PS {\n    int *operator+(int);\n    int operator ()();\n    operator int *();\n};\nint *PS::m1()\n{\n    return 0;\n}\nint *::gm1();\n"
+                       "void up(const char *, int *&r, const int *const *);\nchar *dup1(const char *s);\nconst char *dup2(void)\n{\n    return 0;\n}\n"
+                       "auto tr1() -> int *;\nauto tr2() -> const int *\n{\n    return 0;\n}\n"),
+        # sp_after_decltype, sp_decltype_paren, sp_inside_angle_empty, sp_angle_colon, sp_after_angle, sp_angle_paren_empty, sp_before_template_paren
+        ("sp-angle", "int da;\ndecltype(da) db;\ntemplate<> struct X<int> {};\ntemplate<class T> struct Y : Z<T> {};\ntemplate<class T> class W<T> : public B {};\n"
+                     "Y<int> yi;\nint ya = mk<int>();\nint yb = mk<int>(1);\ntemplate<class T> T mk() { return T(); }\n"),
+        # ellipsis family
+        ("sp-ellipsis", "void e1(const char *fmt, ...);\nvoid e2(int...);\ntemplate<typename... T> void e3(T... a)\n{\n    e4(a...);\n    int n = sizeof...(T);\n"
+                        "    e5(&a...);\n    e6((a)...);\n}\ntemplate<class... A> struct E7 : A... {};\nvoid e8(int *...p);\ntemplate<class... T> void e10(T &...a, T && ... b, T *... c);\nvoid e9()\n{\n    try {\n    } catch (...) {\n    }\n}\n"),
+        # sp_special_semi, sp_inside_for_close/open, sp_inside_sparen_close, sp_before_square_asm_block, sp_cpp_before_struct_binding_after_byref,
+        # sp_paren_comma, sp_square_fparen, sp_attribute_paren, sp_throw_paren, sp_cond_ternary_short, sp_extern_paren? (D), sp_paren_brace
+        ("sp-misc", "void m1(int a, int b) throw(int);\nvoid m2(void) __attribute__((noreturn));\nvoid m3(int a, int b)\n{\n    for (; a < b;)\n        a++;\n    for (;;) {\n    }\n"
+                    "    for (int i = 0; i < a; i++) {\n    }\n    if (a) {\n    }\n    while (b) {\n    }\n    asm (\"mov %[x], %[y]\" : [x] \"=r\" (a) : [y] \"r\" (b));\n"
+                    "    auto &[s1, s2] = pr;\n    auto [s3, s4] = pr;\n    M(, a);\n    tbl[1](2);\n    a = b ?: 3;\n    if (!a)\n        throw (a);\n    throw std::runtime_error(\"x\");\n"
+                    "    pt = (struct pt) { 1, 2 };\n    if (a) ;\n    while (b) ;\n    for (;;) ;\n    switch (a) {\n    case 1 ... 3:\n        break;\n    }\n}\n"),
+        # sp_between_new_paren, sp_after_newop_paren, sp_inside_newop_paren(_open/_close), sp_fparen_brace_initializer, sp_fparen_dbrace, sp_func_type_paren, sp_catch_brace
+        ("sp-new", "void n1(void *buf)\n{\n    T *a = new (buf) T;\n    T *b = new (int);\n    T *c = new (std::nothrow) T(1);\n    T *d = new T();\n    try {\n        n2();\n    } catch (const E &e) {\n"
+                   "    } catch (...) {\n    }\n}\nstruct N3 {\n    N3() : v(1) {}\n    N3(int x) : v{ x } {}\n    int v;\n};\nN3 n4() {{ return N3(); }}\ntypedef void fn_t(int);\ntypedef int (*fp_t)(int);\n"
+                   "enum E5 { A5 };\nenum class E6 : char { A6 };\nenum { A7 } e7;\n"),
+        # sp_before_emb_cmt, sp_after_emb_cmt, sp_num_*_emb_cmt, sp_num_before_tr_cmt, sp_cmt_cpp_pvs/lint/region, sp_before_pp_stringify
+        ("sp-cmt", "int c1 /* emb */ = 1;\nint c2(int a /* in */, int b/* out */);\nint c3; // trailing\nint c4; /* trailing c */\nint c5; //-V123\nint c6; //lint -e123\n"
+                   "//region R\nint c7;\n//endregion\n#define STR(x) #x\n#define CAT(a, b) a #b\n#define STR2(x) a = #x\n"),
+    ],
+    "C": [
+        ("sp-c-misc", "struct pt { int x; int y; };\nenum ce { CA, CB };\nenum { CC } ce2;\nvoid cm(struct pt *p, int a)\n{\n    *p = (struct pt) { 1, 2 };\n    for (; a;)\n        a--;\n"
+                      "    a = a ?: 2;\n    __asm__ (\"nop\" : [o] \"=r\" (a));\n}\nchar *cdup(const char *s);\nint *cfn(void)\n{\n    return 0;\n}\nvoid cproto(const char *, int * const);\n"
+                      "void cva(const char *fmt, ...);\n__attribute__((unused)) static int cu;\ntypedef void cfn_t(int);\nextern int (*cfp)(int);\n"),
+    ],
+    "OC": [
+        # sp_after_ptr_block_caret, sp_before_oc_block_caret, sp_oc_classname_paren, sp_oc_catch_brace, sp_after_oc_at_sel(_parens), sp_inside_oc_at_sel_parens, sp_enum_paren
+        ("sp-oc", "typedef NS_ENUM(NSInteger, Kind) { KindA, KindB };\n@interface Foo (Cat)\n- (void)run:(void (^)(int))blk;\n@end\n@implementation Foo (Cat)\n- (void)run:(void (^)(int))blk\n{\n"
+                  "    void (^b2)(void) = ^{ };\n    int (^b3)(int) = ^int (int a) { return a; };\n    SEL s = @selector(run:);\n    SEL s2 = @selector (run:);\n"
+                  "    @try {\n        [self run:nil];\n    } @catch (NSException *e) {\n    } @finally {\n    }\n    id x = [Foo new] ?: nil;\n}\n@end\n"),
+    ],
+    "JAVA": [
+        # sp_super_paren, sp_this_paren, sp_annotation_paren, sp_after_angle / generics
+        ("sp-java", "@SuppressWarnings(\"x\")\nclass SJ extends B {\n    SJ() {\n        this(1);\n    }\n    SJ(int a) {\n        super(a);\n    }\n    @Ann (1) int f;\n"
+                    "    void v(String... s) {\n        int x = a > b ? a : b;\n        try {\n        } catch (Exception e) {\n        }\n        List<Integer> l = new ArrayList<Integer>() {{ add(1); }};\n        Runnable r = new Runnable() { public void run() { } };\n    }\n}\n"),
+    ],
+    "PAWN": [
+        # sp_after_tag
+        ("sp-pawn", "new Float:x = 1.0\nFloat: pf(Float: a, bool:b)\n{\n    return a\n}\n"),
+    ],
+    "CS": [
+        # sp_getset_brace, sp_*_mdatype_commas, sp_after_tag?, sp_this_paren
+        ("sp-cs", "class SC {\n    int[,] m2;\n    int[, ,] m3;\n    public int P { get { return 1; } set { v = value; } }\n    public int Q { get; set; }\n    SC() : this(1) { }\n"
+                  "    SC(int a) : base(a) { }\n    void F() {\n        int? n = null;\n        var x = n ?? 0;\n        try { } catch (Exception e) { }\n    }\n}\n"),
+    ],
+    "D": [
+        # sp_version_paren, sp_scope_paren, sp_d_array_colon, sp_range, sp_extern_paren, sp_invariant_paren, sp_after_invariant_paren
+        ("sp-d", "extern (C) int cfunc(int a);\nclass DC {\n    invariant() { assert(x); }\n    invariant () { assert(y); }\n    int x;\n}\nvoid df(int[] a)\n{\n    version (X) { }\n    scope (exit) df2();\n"
+                 "    foreach (i; 0 .. 3) { }\n    auto s = a[1 .. 2];\n    int[int] aa = [1 : 2, 3 : 4];\n    auto t = cast(int) x;\n}\n"),
+    ],
+    "VALA": [
+        # sp_vala_after_translation
+        ("sp-vala", "class SV : Object {\n    void f() {\n        var s = _(\"text\");\n        var t = _ (\"text\");\n        string? n = null;\n    }\n}\n"),
+    ],
+}
+
+
+def sp_units(lang):
+    return [("sp:" + n, s.encode(), {"ctx": "sp"}) for n, s in SP_UNITS.get(lang, [])]
+
+
+if __name__ == "__main__":
+    from .. import bee, run
+    R = bee.reg()
+    read = {}
+    for lg, lst in SP_UNITS.items():
+        for n, s in lst:
+            r = run.unc(s.encode(), None, lg, hooks=("reads",))
+            if r.rc != 0:
+                print("REFUSED", lg, n, r.err[-200:])
+            read[n] = set(x for x in (r.reads or ()) if x.startswith("sp_"))
+    import sys
+    want = sys.argv[1:]
+    for w in want:
+        print(w, [n for n, s in read.items() if w in s])
